@@ -16,19 +16,35 @@ theorem C18_tree_complete (n : Node) (rest : List XTok) : parseDoc (n.toks ++ re
 /-- strict documents pass the entity pre-pass unchanged (no `&` at all: nothing to rewrite) … -/
 theorem C18_entities_identity (s : List B) (h : ∀ b ∈ s, b ≠ amp) : entities s = s := entities_noamp s h
 /-- … the ampersand pass rewrites nothing outside quoted attribute values … -/
-theorem C18_amp_outside_quotes (E : Ent) (s : List B) (inTag : Bool) (h : ∀ b ∈ s, b ≠ dq ∧ b ≠ sq) : esc E inTag 0 s = s :=
-  esc_noquote E s inTag h
+theorem C18_amp_outside_quotes (E : Ent) (s : List B) (inTag : Bool) (h : ∀ b ∈ s, b ≠ dq ∧ b ≠ sq) : esc E inTag 0 0 0 s = s :=
+  esc_noquote E s inTag 0 0 h
 /-- … and nothing at all without an ampersand -/
-theorem C18_amp_identity (E : Ent) (s : List B) (inTag : Bool) (q : B) (h : ∀ b ∈ s, b ≠ amp) : esc E inTag q s = s :=
-  esc_noamp E s inTag q h
+theorem C18_amp_identity (E : Ent) (s : List B) (inTag : Bool) (q : B) (h : ∀ b ∈ s, b ≠ amp) : esc E inTag q 0 0 s = s :=
+  esc_noamp E s inTag q 0 0 h
+
+/-- **comments and CDATA sections are not markup** (plain XML): outside a quoted value, `<!-- … -->` and `<![CDATA[ … ]]>` pass
+    the ampersand pre-pass exactly as written — whatever quotes, ampersands or angle brackets their text contains — and the
+    scanner goes on behind them in the state it was in (so a quote inside them opens no attribute value).  False of the code
+    before the repair: `<!-- 5" -->` made a later bare `&` in an attribute value a parse error -/
+theorem C18_non_markup_verbatim (E : Ent) (inTag : Bool) (body rest : List B) :
+    (endsOnlyAt cmClose body →
+      esc E inTag 0 0 0 (lt :: cmOpen ++ body ++ cmClose ++ rest) = lt :: cmOpen ++ body ++ cmClose ++ esc E inTag 0 0 0 rest) ∧
+    (endsOnlyAt cdClose body →
+      esc E inTag 0 0 0 (lt :: cdOpen ++ body ++ cdClose ++ rest) = lt :: cdOpen ++ body ++ cdClose ++ esc E inTag 0 0 0 rest) :=
+  ⟨esc_comment E inTag body rest, esc_cdata E inTag body rest⟩
+
+/-- non-vacuity: the body ` 5" & ` ends only at its terminator, for both kinds of block -/
+example : endsOnlyAt cmClose [32, 53, 34, 32, 38, 32] ∧ endsOnlyAt cdClose [32, 53, 34, 32, 38, 32] := by
+  constructor <;> intro k hk <;>
+    (have : k < 6 := hk; match k, this with | 0, _ | 1, _ | 2, _ | 3, _ | 4, _ | 5, _ => decide)
 
 /-- **a bare ampersand in an attribute value parses like `&amp;`**: inside a quoted attribute value, at a place where no
     entity follows, the pre-pass writes the same bytes for `&…` as for `&amp;…` (and leaves `&amp;` as it is) — for the real
     entity table (regenerated), either kind of quote, whatever follows -/
 theorem C18_bare_amp_like_escaped (inTag : Bool) (q : B) (hq : q = dq ∨ q = sq) (rest : List B)
     (h : entityAhead entTable rest = false) :
-    esc entTable inTag q (amp :: rest) = esc entTable inTag q (ampEsc ++ rest) ∧
-    esc entTable inTag q (ampEsc ++ rest) = ampEsc ++ esc entTable inTag q rest :=
+    esc entTable inTag q 0 0 (amp :: rest) = esc entTable inTag q 0 0 (ampEsc ++ rest) ∧
+    esc entTable inTag q 0 0 (ampEsc ++ rest) = ampEsc ++ esc entTable inTag q 0 0 rest :=
   ⟨esc_bare_amp entTable (by decide) inTag q hq rest h, esc_amp_entity entTable (by decide) inTag q hq rest⟩
 
 /-- non-vacuity: `href="a?x=1&y=2"` and `href="a?x=1&amp;y=2"` come out of the pre-pass as the same bytes -/
@@ -36,8 +52,18 @@ example : escapeAmp [60, 97, 32, 104, 114, 101, 102, 61, 34, 97, 63, 120, 61, 49
 
 /-- **HTML-only named entities parse like their characters**: each replacement step, at an occurrence of its entity, writes
     the replacement and continues behind it … -/
-theorem C18_named_entity_replaced (old new rest : List B) (h : old ≠ []) :
-    replaceAll old new (old ++ rest) = new ++ replaceAll old new rest := replaceAll_prefix old new rest h
+theorem C18_named_entity_replaced (old new rest : List B) (h : old.head? = some amp) :
+    replaceAllM old new (old ++ rest) = new ++ replaceAllM old new rest := replaceAllM_prefix old new rest h
+
+/-- … while inside a comment or a CDATA section the same letters are character data and stay as written (plain XML): the
+    replacement steps copy such a block whole.  False of the code before the repair: `<![CDATA[&copy;]]>` was read as `©` -/
+theorem C18_entities_not_in_non_markup (old new s : List B) (ho : old ≠ []) (hk : 0 < nonMarkupLen s) :
+    replaceAllM old new s = s.take (nonMarkupLen s) ++ replaceAllM old new (s.drop (nonMarkupLen s)) :=
+  replaceAllM_block old new s ho hk
+
+/-- non-vacuity: `<![CDATA[&copy;]]>x` starts with a block of 18 bytes; `<!-->` is an unterminated comment -/
+example : nonMarkupLen [60, 33, 91, 67, 68, 65, 84, 65, 91, 38, 99, 111, 112, 121, 59, 93, 93, 62, 120] = 18 ∧
+    nonMarkupLen [60, 33, 45, 45, 62] = 5 ∧ nonMarkupLen [60, 98, 62] = 0 := by decide
 
 /-- … and (regenerated table) the replacements are exactly the UTF-8 bytes of the characters the entities name: © (C2 A9), ® (C2 AE),
     ™ (E2 84 A2), the no-break space (C2 A0, also for its two numeric spellings), – — … (E2 80 93 / 94 / A6); none contains a byte that means anything to XML -/
